@@ -9,7 +9,7 @@ and each Enter is answered by exactly one new prompt. The command history keeps 
 stored lines in order, and !n, !-n and !! re-run exactly the addressed entry or report an error
 when it does not exist."
 
-`Cfg.fixed` is the code with patches/C13-01..07 applied (what the model describes and the check
+`Cfg.fixed` is the code with patches/C13-01..09 applied (what the model describes and the check
 runs against); `Cfg.legacy` the code as found, for which the counterexamples are proved.
 -/
 import TboxModel.C13.ProofsTelnet
@@ -18,43 +18,49 @@ import TboxModel.C13.ProofsSessions
 import TboxModel.C13.ProofsSplit
 namespace Tbox.C13
 
-/-! ## C13_editor_refines -/
+/-! ## C13_editor_refines
 
-theorem execLines_onEnter (cfg : Cfg) (ns : Nodes) (s : St) :
-    (execLines (onEnter cfg ns s).2).head? = some s.line := by
+Everything below holds for every handler nesting budget `d`: `feedAt cfg ns d` is what a command
+handler that feeds bytes into its own session reaches (`onRecvString` one level further in, until the
+budget is used up). A nested Enter is an ordinary Enter: `onEnter` processed to completion on the
+session as it is at that moment, inside the outer one. -/
+
+theorem execLines_onEnter (cfg : Cfg) (ns : Nodes) (feed : Feed) (s : St) :
+    (execLines (onEnter cfg ns feed s).2).head? = some s.line := by
   unfold onEnter
   simp only [execFuel, execute]
   split <;> split <;> simp [execLines]
 
-theorem onEnter_fresh (cfg : Cfg) (ns : Nodes) (s : St) :
-    Rel (onEnter cfg ns s).1 (RefEd.fresh (onEnter cfg ns s).1.hist) := by
+theorem onEnter_fresh (cfg : Cfg) (ns : Nodes) (feed : Feed) (s : St) :
+    Rel (onEnter cfg ns feed s).1 (RefEd.fresh (onEnter cfg ns feed s).1.hist) := by
   unfold onEnter
   exact ⟨by simp [RefEd.fresh, RefEd.line], by simp [RefEd.fresh], rfl, by simp [RefEd.fresh], by simp⟩
 
 /-- **C13_editor_refines.** From any state in which the session shows what the reference editor holds
-(in particular right after session start or after any Enter: `onEnter_fresh`), for EVERY sequence of
+(in particular right after session start or after any Enter: `onEnter_fresh`; and, with patch 08, at
+the moment a command handler starts feeding keys into its session: `SInv.rel`), for EVERY sequence of
 editing keys — printable characters inserted at the cursor, backspace, delete, left, right, home,
-end, history up/down, tab — the session keeps showing what the reference zipper editor holds, no
-key handler touches the line outside `[0, length]`, the line `execute()` is entered with when Enter
-arrives is exactly the reference editor's line, and after that Enter the session is again related
-to the fresh reference editor (so the statement chains over any number of Enters). Holds for the
-code as found and the repaired code alike. -/
-theorem C13_editor_refines (cfg : Cfg) (ns : Nodes) (s : St) (e : RefEd) (ks : List Key)
+end, history up/down, tab — typed by the client or fed by a handler, the session keeps showing what
+the reference zipper editor holds, no key handler touches the line outside `[0, length]`, the line
+`execute()` is entered with when Enter arrives is exactly the reference editor's line, and after that
+Enter — whatever Enters were nested inside it — the session is again related to the fresh reference
+editor (so the statement chains over any number of Enters). -/
+theorem C13_editor_refines (cfg : Cfg) (ns : Nodes) (d : Nat) (s : St) (e : RefEd) (ks : List Key)
     (hR : Rel s e) (hne : Key.enter ∉ ks) :
-    Rel (runKeys cfg ns s ks).1 (e.run ks) ∧
-    noBad (runKeys cfg ns s ks).2 ∧
-    (execLines (onEnter cfg ns (runKeys cfg ns s ks).1).2).head? = some (e.run ks).line ∧
-    Rel (onEnter cfg ns (runKeys cfg ns s ks).1).1
-        (RefEd.fresh (onEnter cfg ns (runKeys cfg ns s ks).1).1.hist) := by
-  have h := runKeys_rel cfg ns s e ks hR hne
-  refine ⟨h.1, h.2, ?_, onEnter_fresh _ _ _⟩
+    Rel (runKeys cfg ns (feedAt cfg ns d) s ks).1 (e.run ks) ∧
+    noBad (runKeys cfg ns (feedAt cfg ns d) s ks).2 ∧
+    (execLines (onEnter cfg ns (feedAt cfg ns d) (runKeys cfg ns (feedAt cfg ns d) s ks).1).2).head? = some (e.run ks).line ∧
+    Rel (onEnter cfg ns (feedAt cfg ns d) (runKeys cfg ns (feedAt cfg ns d) s ks).1).1
+        (RefEd.fresh (onEnter cfg ns (feedAt cfg ns d) (runKeys cfg ns (feedAt cfg ns d) s ks).1).1.hist) := by
+  have h := runKeys_rel cfg ns (feedAt cfg ns d) s e ks hR hne
+  refine ⟨h.1, h.2, ?_, onEnter_fresh _ _ _ _⟩
   rw [execLines_onEnter, h.1.line]
 
 /-- **C13_cursor_in_line.** The invariant behind it: the cursor column never leaves the line. -/
-theorem C13_cursor_in_line (cfg : Cfg) (ns : Nodes) (s : St) (e : RefEd) (ks : List Key)
+theorem C13_cursor_in_line (cfg : Cfg) (ns : Nodes) (d : Nat) (s : St) (e : RefEd) (ks : List Key)
     (hR : Rel s e) (hne : Key.enter ∉ ks) :
-    (runKeys cfg ns s ks).1.cursor ≤ (runKeys cfg ns s ks).1.line.length := by
-  have h := (runKeys_rel cfg ns s e ks hR hne).1
+    (runKeys cfg ns (feedAt cfg ns d) s ks).1.cursor ≤ (runKeys cfg ns (feedAt cfg ns d) s ks).1.line.length := by
+  have h := (runKeys_rel cfg ns (feedAt cfg ns d) s e ks hR hne).1
   rw [rel_len h, h.cursor]; omega
 
 -- non-vacuity: a fresh session is related to the fresh reference editor, and a mid-line edit
@@ -62,139 +68,67 @@ example : Rel ({ hist := [[97]] } : St) (RefEd.fresh [[97]]) := ⟨rfl, rfl, rfl
 example : (RefEd.fresh [[108, 115]]).run [.char 97, .char 99, .left, .char 98, .home, .delete, .endKey, .backspace, .up, .down, .up] =
     { left := [115, 108], right := [], hist := [[108, 115]], hidx := 1 } := by decide
 
-
 /-! ## C13_one_prompt_per_enter, C13_history -/
 
-theorem cap_step (h : List Str) (l : Str) (hh : h.length ≤ histMax) :
-    (if (h ++ [l]).length > histMax then (h ++ [l]).drop 1 else h ++ [l]) = cap (h ++ [l]) := by
-  unfold cap
-  simp only [List.length_append, List.length_cons, List.length_nil]
-  split
-  · congr 1; omega
-  · rw [show h.length + (0 + 1) - histMax = 0 by omega]; rfl
-
-theorem cap_length (l : List Str) : (cap l).length ≤ histMax := by
-  unfold cap; simp; omega
-
-theorem cap_of_le (l : List Str) (h : l.length ≤ histMax) : cap l = l := by
-  unfold cap; rw [show l.length - histMax = 0 by omega]; rfl
-
-theorem cap_append_cap (a b : List Str) : cap (cap a ++ b) = cap (a ++ b) := by
-  unfold cap
-  by_cases h : a.length ≤ histMax
-  · rw [show a.length - histMax = 0 by omega]; rfl
-  · have hk : a.length - histMax ≤ a.length := by omega
-    simp only [List.length_append, List.length_drop]
-    rw [← List.drop_append_of_le_length hk, List.drop_drop]
-    congr 1; omega
-
-theorem getLast_snoc (l : List Ev) (x : Ev) : (l ++ [x]).getLast? = some x := by simp
-
-/-- what one Enter does, in terms of `execute`'s verdict -/
-theorem onEnter_spec (cfg : Cfg) (ns : Nodes) (s : St) :
-    (onEnter cfg ns s).1.opts = s.opts ∧
-    countPrompts (onEnter cfg ns s).2 = (if s.quiet then 0 else 1) ∧
-    (s.quiet = false → (onEnter cfg ns s).2.getLast? = some (.tx .prompt Msg.prompt)) ∧
-    storedLines (onEnter cfg ns s).2 =
-      (if (execute cfg ns execFuel s).2.2 then [(execute cfg ns execFuel s).1.line] else []) ∧
-    (s.hist.length ≤ histMax → (onEnter cfg ns s).1.hist = cap (s.hist ++ storedLines (onEnter cfg ns s).2)) := by
-  have hk := execute_keep cfg ns execFuel s
-  unfold onEnter
-  generalize execute cfg ns execFuel s = r at hk
-  obtain ⟨s1, evs, ok⟩ := r
-  have hq : s1.quiet = s.quiet := by unfold St.quiet; rw [show s1.opts = s.opts from hk.opts]
-  have hh : s1.hist = s.hist := hk.hist
-  have ho : s1.opts = s.opts := hk.opts
-  have hev : Quiet evs := hk.quiet
-  have hc := countPrompts_quiet hev
-  have hs := storedLines_quiet hev
-  simp only [hq, hh]
-  have cp_cons : ∀ (e : Ev) (l : List Ev), countPrompts (e :: l) = (if isPrompt e then 1 else 0) + countPrompts l := by
-    intro e l; unfold countPrompts; rw [List.filter_cons]; split <;> simp <;> omega
-  have cp_nil : countPrompts [] = 0 := rfl
-  have sl_nil : storedLines [] = [] := rfl
-  have sl_stored : ∀ (x : Str) (l : List Ev), storedLines (.stored x :: l) = x :: storedLines l := by
-    intro x l; simp [storedLines]
-  have sl_tag : ∀ (x : String) (l : List Ev), storedLines (.tag x :: l) = storedLines l := by
-    intro x l; simp [storedLines]
-  have sl_tx : ∀ (k : TxKind) (x : Str) (l : List Ev), storedLines (.tx k x :: l) = storedLines l := by
-    intro k x l; simp [storedLines]
-  refine ⟨?_, ?_, ?_, ?_, ?_⟩
-  · cases ok <;> by_cases hl : histMax < s.hist.length + 1 <;> simp [hl, ho]
-  · cases ok <;> cases hqq : s.quiet <;> by_cases hl : histMax < s.hist.length + 1 <;> by_cases he : s.echo = true <;>
-      simp [hl, he, countPrompts_append, hc, cp_cons, cp_nil, isPrompt]
-  · intro hqq
-    cases ok <;> by_cases hl : histMax < s.hist.length + 1 <;>
-      (simp [hl, hqq])
-  · cases ok <;> cases hqq : s.quiet <;> by_cases hl : histMax < s.hist.length + 1 <;> by_cases he : s.echo = true <;>
-      simp [hl, he, storedLines_append, hs, sl_nil, sl_stored, sl_tag, sl_tx]
-  · intro hle
-    cases ok
-    · have : ∀ (a b c : List Ev), storedLines (a ++ evs ++ [.tag "nostore"] ++ c) = storedLines a ++ storedLines c := by
-        intro a b c; simp [storedLines_append, hs, sl_tag, sl_nil]
-      cases hqq : s.quiet <;> by_cases he : s.echo = true <;>
-        simp [he, storedLines_append, hs, sl_nil, sl_tag, sl_tx, cap_of_le _ hle]
-    · have hstep := cap_step s.hist s1.line hle
-      by_cases hl : histMax < s.hist.length + 1
-      · have hl' : (s.hist ++ [s1.line]).length > histMax := by simpa using hl
-        simp only [hl', if_true] at hstep
-        cases hqq : s.quiet <;> by_cases he : s.echo = true <;>
-          simp [hl, he, storedLines_append, hs, sl_nil, sl_stored, sl_tag, sl_tx, ← hstep]
-      · have hl' : ¬ (s.hist ++ [s1.line]).length > histMax := by simpa using hl
-        simp only [hl', if_false] at hstep
-        cases hqq : s.quiet <;> by_cases he : s.echo = true <;>
-          simp [hl, he, storedLines_append, hs, sl_nil, sl_stored, sl_tag, sl_tx, ← hstep]
+theorem countEntered_onKey (cfg : Cfg) (ns : Nodes) (feed : Feed) (s : St) (k : Key) :
+    (if k = .enter then 1 else 0) ≤ countEntered (onKey cfg ns feed s k).2 := by
+  by_cases hk : k = .enter
+  · subst hk
+    show _ ≤ countEntered (onEnter cfg ns feed s).2
+    unfold onEnter
+    simp only [countEntered_append, if_true]
+    have : countEntered (if s.echo = true then [Ev.entered, Ev.tx .echo Msg.crlf] else [Ev.entered]) = 1 := by
+      split <;> rfl
+    omega
+  · simp [hk]
 
 /-- **C13_one_prompt_per_enter.** For every key sequence (any mixture of editing keys and Enters, any
-commands, any node tree), in a session that is not in quiet mode the number of prompts sent equals
-the number of Enter keys; in quiet mode (raw-TCP front end) no prompt is sent. Moreover the prompt is
-the last thing sent for its Enter (`onEnter_spec`). -/
-theorem C13_one_prompt_per_enter (cfg : Cfg) (ns : Nodes) (s : St) (ks : List Key) :
-    countPrompts (runKeys cfg ns s ks).2 = (if s.quiet then 0 else ks.count .enter) ∧
-    (s.quiet = false → (onEnter cfg ns s).2.getLast? = some (.tx .prompt Msg.prompt)) := by
-  refine ⟨?_, (onEnter_spec cfg ns s).2.2.1⟩
-  induction ks generalizing s with
-  | nil => simp [runKeys, countPrompts]
-  | cons k ks ih =>
-    simp only [runKeys, countPrompts_append]
-    by_cases hk : k = .enter
-    · subst hk
-      have h := onEnter_spec cfg ns s
-      have hq : (onKey cfg ns s .enter).1.quiet = s.quiet := by
-        show (onEnter cfg ns s).1.quiet = s.quiet
-        unfold St.quiet; rw [h.1]
-      rw [ih, hq]
-      show countPrompts (onEnter cfg ns s).2 + _ = _
-      rw [h.2.1]
-      cases s.quiet <;> simp; omega
-    · have h := onKey_keep cfg ns s k hk
-      have hq : (onKey cfg ns s k).1.quiet = s.quiet := by unfold St.quiet; rw [h.opts]
-      rw [ih, hq, countPrompts_quiet h.quiet, List.count_cons_of_ne hk]
-      simp
+commands, any node tree, handlers feeding further lines into the session to any nesting depth): every
+Enter handled — typed, or fed by a handler and processed inside the outer one — is answered by exactly
+one prompt (none in quiet mode: the raw-TCP front end); every typed Enter is among the Enters handled;
+and the prompt of an Enter is the last thing sent for it. -/
+theorem C13_one_prompt_per_enter (cfg : Cfg) (ns : Nodes) (d : Nat) (s : St) (ks : List Key) :
+    countPrompts (runKeys cfg ns (feedAt cfg ns d) s ks).2 =
+      (if s.quiet then 0 else countEntered (runKeys cfg ns (feedAt cfg ns d) s ks).2) ∧
+    ks.count .enter ≤ countEntered (runKeys cfg ns (feedAt cfg ns d) s ks).2 ∧
+    (s.quiet = false → (onEnter cfg ns (feedAt cfg ns d) s).2.getLast? = some (.tx .prompt Msg.prompt)) := by
+  refine ⟨(runKeys_good cfg ns _ (feedAt_good cfg ns d) ks s).prompts, ?_, ?_⟩
+  · induction ks generalizing s with
+    | nil => simp
+    | cons k ks ih =>
+      simp only [runKeys, countEntered_append, List.count_cons]
+      have h1 := countEntered_onKey cfg ns (feedAt cfg ns d) s k
+      have h2 := ih (onKey cfg ns (feedAt cfg ns d) s k).1
+      by_cases hk : k = .enter
+      · subst hk; simp at h1 ⊢; omega
+      · have : (k == Key.enter) = false := by simpa using hk
+        simp [this]; omega
+  · intro hq
+    have hg := execute_good cfg ns _ (feedAt_good cfg ns d) execFuel false s
+    have ho : (execute cfg ns (feedAt cfg ns d) execFuel false s).1.quiet = s.quiet := quiet_of_opts hg.opts
+    unfold onEnter
+    simp only [ho, hq]
+    simp
 
-/-- **C13_history.** For every key sequence, from any state whose history is within the limit: the
-history afterwards is the most recent 20 of (the history before, followed by the lines stored by the
-Enters of the sequence, in order) — nothing else is ever added, removed or reordered. -/
-theorem C13_history (cfg : Cfg) (ns : Nodes) (s : St) (ks : List Key) (hh : s.hist.length ≤ histMax) :
-    (runKeys cfg ns s ks).1.hist = cap (s.hist ++ storedLines (runKeys cfg ns s ks).2) ∧
-    (runKeys cfg ns s ks).1.hist.length ≤ histMax := by
-  induction ks generalizing s with
-  | nil => simp [runKeys, storedLines, cap_of_le _ hh, hh]
-  | cons k ks ih =>
-    simp only [runKeys, storedLines_append]
-    by_cases hk : k = .enter
-    · subst hk
-      have h1 : (onKey cfg ns s .enter).1.hist = cap (s.hist ++ storedLines (onKey cfg ns s .enter).2) :=
-        (onEnter_spec cfg ns s).2.2.2.2 hh
-      have hl : (onKey cfg ns s .enter).1.hist.length ≤ histMax := by rw [h1]; exact cap_length _
-      have h2 := ih (onKey cfg ns s .enter).1 hl
-      refine ⟨?_, h2.2⟩
-      rw [h2.1, h1, cap_append_cap, List.append_assoc]
-    · have h := onKey_keep cfg ns s k hk
-      have h2 := ih (onKey cfg ns s k).1 (by rw [h.hist]; exact hh)
-      refine ⟨?_, h2.2⟩
-      rw [h2.1, h.hist, storedLines_quiet h.quiet]; rfl
+/-- **C13_history.** For every key sequence with handlers nesting to any depth, from any state whose
+history is within the limit: the history afterwards is the most recent 20 of (the history before,
+followed by the lines stored by the Enters handled — the lines of nested Enters before the line of
+the Enter they are nested in — in order): nothing else is ever added, removed or reordered, and the
+history never exceeds 20 entries, not even in the middle of an Enter. -/
+theorem C13_history (cfg : Cfg) (ns : Nodes) (d : Nat) (s : St) (ks : List Key) (hh : s.hist.length ≤ histMax) :
+    (runKeys cfg ns (feedAt cfg ns d) s ks).1.hist = cap (s.hist ++ storedLines (runKeys cfg ns (feedAt cfg ns d) s ks).2) ∧
+    (runKeys cfg ns (feedAt cfg ns d) s ks).1.hist.length ≤ histMax :=
+  (runKeys_good cfg ns _ (feedAt_good cfg ns d) ks s).hist hh
 
+-- non-vacuity (the seeded change C13-4 in miniature): 19 lines stored, then a line whose handler feeds a
+-- line + Enter into the session: both are stored, the oldest one goes, 20 remain
+example :
+    let ns : Nodes := [some (.dir [([112], 1)]), some (.func [.feed [120, 13, 10]])]
+    let s : St := { hist := List.replicate 19 [110], opts := 2 }
+    let r := recvStringD Cfg.fixed ns 1 s [112, 13, 10]
+    r.1.hist.length = 20 ∧ storedLines r.2 = [[112, 120], []] ∧ r.1.hist.drop 18 = [[112, 120], []] ∧
+    countEntered r.2 = 2 := by
+  decide +kernel
 
 /-! ## C13_history_never_stored, C13_history_rerun -/
 
@@ -219,8 +153,8 @@ theorem runSegs_false (f : St → Str → ExecRes) (s : St) (segs : List Str)
       · exact ih _ ⟨seg, h1, hf⟩
     · rfl
 
-theorem executeCmd_history (cfg : Cfg) (ns : Nodes) (inner : St → ExecRes) (s : St) (seg : Str)
-    (h : isHistorySeg seg = true) : (executeCmd cfg ns inner s seg).2.2 = false := by
+theorem executeCmd_history (cfg : Cfg) (ns : Nodes) (feed : Feed) (inner : St → ExecRes) (rerun : Bool) (s : St) (seg : Str)
+    (h : isHistorySeg seg = true) : (executeCmd cfg ns feed inner rerun s seg).2.2 = false := by
   unfold isHistorySeg at h
   have h0 : seg ≠ [] := by intro hh; simp [hh] at h
   cases hs : splitCmdline seg with
@@ -235,19 +169,26 @@ theorem executeCmd_history (cfg : Cfg) (ns : Nodes) (inner : St → ExecRes) (s 
       simp [h0, hs, Msg.cmdHistory, Msg.cmdLs, Msg.cmdPwd, Msg.cmdCd, Msg.cmdHelp]
 
 /-- **C13_history_never_stored.** If any `;`-segment of the line on which Enter is pressed is the
-`history` command, nothing is stored by that Enter and the history is unchanged (code as found and
-repaired code alike). -/
-theorem C13_history_never_stored (cfg : Cfg) (ns : Nodes) (s : St)
+`history` command, `execute()` answers "do not store" and that Enter stores nothing: the history after
+it is the history `execute()` left (only Enters that handlers nested inside may have stored lines). -/
+theorem C13_history_never_stored (cfg : Cfg) (ns : Nodes) (feed : Feed) (s : St)
     (h : ∃ seg ∈ splitOn 59 s.line, isHistorySeg seg = true) :
-    storedLines (onEnter cfg ns s).2 = [] ∧ (s.hist.length ≤ histMax → (onEnter cfg ns s).1.hist = s.hist) := by
-  have hf : (execute cfg ns execFuel s).2.2 = false := by
+    (execute cfg ns feed execFuel false s).2.2 = false ∧
+    (onEnter cfg ns feed s).1.hist = (execute cfg ns feed execFuel false s).1.hist ∧
+    storedLines (onEnter cfg ns feed s).2 = storedLines (execute cfg ns feed execFuel false s).2.1 := by
+  have hf : (execute cfg ns feed execFuel false s).2.2 = false := by
     obtain ⟨seg, hs, hh⟩ := h
     simp only [execFuel, execute]
-    exact runSegs_false _ s _ ⟨seg, hs, fun st => executeCmd_history cfg ns _ st seg hh⟩
-  have hsp := onEnter_spec cfg ns s
-  have h4 : storedLines (onEnter cfg ns s).2 = [] := by rw [hsp.2.2.2.1, hf]; simp
-  refine ⟨h4, fun hle => ?_⟩
-  rw [hsp.2.2.2.2 hle, h4, List.append_nil, cap_of_le _ hle]
+    exact runSegs_false _ s _ ⟨seg, hs, fun st => executeCmd_history cfg ns feed _ false st seg hh⟩
+  refine ⟨hf, ?_, ?_⟩
+  · unfold onEnter; simp only [hf]; simp
+  · unfold onEnter; simp only [hf, storedLines_append]
+    have a : storedLines (if s.echo = true then [Ev.entered, Ev.tx .echo Msg.crlf] else [Ev.entered]) = [] := by
+      split <;> rfl
+    have c : ∀ q : Bool, storedLines (if q = true then [] else [Ev.tx .prompt Msg.prompt]) = [] := by
+      intro q; cases q <;> rfl
+    have d : storedLines [Ev.tag "nostore"] = [] := rfl
+    simp only [Bool.false_eq_true, if_false, storedLines_append, a, c, d, List.nil_append, List.append_nil]
 
 example : isHistorySeg [104, 105, 115, 116, 111, 114, 121] = true ∧ isHistorySeg [32, 104, 105, 115, 116, 111, 114, 121, 32, 120] = true := by
   decide
@@ -257,7 +198,8 @@ history within the limit, the repaired index logic selects exactly what the spec
 says — `t` read as a mathematical integer `i`: entry `i` from the oldest for `i ≥ 0`, entry `|i|` back
 from the newest for `i < 0` — and otherwise reports the specified error; it never selects a position
 outside `[0, size)` (that would be `Ev.bad .index`). `!!` selects the newest entry or reports an
-error when there is none. What is selected is what `execute` is re-entered with (`runHistory`). -/
+error when there is none. What is selected is what `execute` is re-entered with, the cursor at its end
+(`runHistory`); a history command inside a re-run line is refused (patch 09). -/
 theorem C13_history_rerun (hist : List Str) (t : Str) (hl : hist.length ≤ histMax) :
     (t ≠ [33] →
       match address hist t with
@@ -270,11 +212,13 @@ theorem C13_history_rerun (hist : List Str) (t : Str) (hl : hist.length ≤ hist
       | none => .err [.tag "bangbang-empty", .tx .out Msg.idxRange]) ∧
     (∀ (inner : St → ExecRes) (s : St) (a l : Str) (echo : Bool) (tag : String),
       selectEntry Cfg.fixed s.hist a = .run l echo tag →
-      (runHistory Cfg.fixed inner s a).1 = (inner { s with line := l }).1 ∧
-      (runHistory Cfg.fixed inner s a).2.2 = (inner { s with line := l }).2.2 ∧
-      untag (runHistory Cfg.fixed inner s a).2.1 =
-        (if echo then [.tx .out (l ++ Msg.crlf)] else []) ++ untag (inner { s with line := l }).2.1) := by
-  refine ⟨fun ht => ?_, ?_, ?_⟩
+      (runHistory Cfg.fixed inner false s a).1 = (inner { s with line := l, cursor := l.length }).1 ∧
+      (runHistory Cfg.fixed inner false s a).2.2 = (inner { s with line := l, cursor := l.length }).2.2 ∧
+      untag (runHistory Cfg.fixed inner false s a).2.1 =
+        (if echo then [.tx .out (l ++ Msg.crlf)] else []) ++ untag (inner { s with line := l, cursor := l.length }).2.1) ∧
+    (∀ (inner : St → ExecRes) (s : St) (a : Str),
+      runHistory Cfg.fixed inner true s a = (s, [.tag "bang-recursive", .tx .out Msg.recursiveHist], false)) := by
+  refine ⟨fun ht => ?_, ?_, ?_, ?_⟩
   · unfold address selectEntry stoi
     have hd : List.drop 1 (33 :: t) = t := rfl
     simp only [hd, ht, if_false]
@@ -324,16 +268,22 @@ theorem C13_history_rerun (hist : List Str) (t : Str) (hl : hist.length ≤ hist
     cases hist.getLast? <;> simp [Cfg.fixed]
   · intro inner s a l echo tag hsel
     unfold runHistory
+    simp only [Cfg.fixed, Bool.and_false, Bool.false_eq_true, if_false, if_true] at hsel ⊢
     rw [hsel]
     refine ⟨rfl, rfl, ?_⟩
     cases echo <;> simp [untag, isTag]
+  · intro inner s a
+    unfold runHistory
+    simp [Cfg.fixed]
 
 /-! ## C13_total -/
 
 /-- **C13_total.** For EVERY op sequence — any node tree, any number of interleaved sessions on the
 eight slots (recording connections, two telnet clients, a raw-TCP client, the stdio service), option
 changes, connects / disconnects / reconnects, loop passes, a teardown of the whole terminal while exit
-tasks are queued, and in particular any received byte strings in any segmentation — the repaired code
+tasks are queued, command handlers that act on their own session while the command is executing (send,
+feed keys and whole lines — `exit`, `!!`, `!n` included — nested to the depth set, end the session),
+and in particular any received byte strings in any segmentation — the repaired code
 never reaches an outcome that stands for a crash, an uncaught exception or an invalid access: no use
 of a freed session or terminal, no `back()` of an empty history, no escaping `std::out_of_range`, no
 `-INT_MIN`, no history index outside `[0, size)`, no cursor outside the line, no unbounded `execute`
@@ -344,21 +294,27 @@ theorem C13_total (ops : List Op) : ∀ e ∈ (run Cfg.fixed {} ops).2, e.isBad 
 
 /-- The code as found violates it: `exit;exit` + a loop pass (freed session used), `!!` with an empty
 history, `!99999999999` (uncaught `std::out_of_range`), `!-2147483648` (negation overflow),
-`send()` after the session ended (`map::at`), and `exit` followed by the destruction of the terminal
-before the next loop pass (the queued task runs on the destroyed terminal) — the last one still with
-patches 01..06 applied. -/
+`send()` after the session ended (`map::at`), `exit` followed by the destruction of the terminal
+before the next loop pass (still with patches 01..06); and, with patches 01..07, under re-entrant use:
+`!!` re-running a shorter line while a handler feeds a key (the cursor of the typed line is still in
+force: `string::insert` throws), and a handler that leaves `!!` in the input so that it is stored:
+the next `!!` re-runs itself without end (stack overflow). -/
 theorem C13_total_legacy_counterexample :
     (run Cfg.legacy {} [.openS 0, .recv [101, 120, 105, 116, 59, 101, 120, 105, 116, 13, 10], .pass]).2.contains (.bad .useAfterFree) = true ∧
     (run Cfg.legacy {} [.openS 0, .recv [33, 33, 13, 10]]).2.contains (.bad .emptyBack) = true ∧
     (run Cfg.legacy {} [.openS 0, .recv [33, 57, 57, 57, 57, 57, 57, 57, 57, 57, 57, 57, 13, 10]]).2.contains (.bad .uncaughtRange) = true ∧
     (run Cfg.legacy {} [.openS 0, .recv [33, 45, 50, 49, 52, 55, 52, 56, 51, 54, 52, 56, 13, 10]]).2.contains (.bad .negOverflow) = true ∧
     (run Cfg.legacy {} [.front true .conn, .front true .endS, .front true .send]).2.contains (.bad .mapAt) = true ∧
-    (run { Cfg.fixed with cancelExit := false } {} [.xconn 4, .xrecv 4 [101, 120, 105, 116, 13, 10], .teardown]).2.contains (.bad .useAfterFree) = true := by
+    (run { Cfg.fixed with cancelExit := false } {} [.xconn 4, .xrecv 4 [101, 120, 105, 116, 13, 10], .teardown]).2.contains (.bad .useAfterFree) = true ∧
+    (run { Cfg.fixed with cursorReset := false } {}
+      [.depth 0, .mkfunc [.feed [120]], .mount 0 1 [112], .openS 0, .recv [112, 13, 10], .depth 1, .recv [33, 33, 32, 32, 32, 32, 32, 13, 10]]).2.contains (.bad .cursor) = true ∧
+    (run { Cfg.fixed with rerunGuard := false } {}
+      [.depth 1, .mkfunc [.feed [13, 10, 33, 33]], .mount 0 1 [112], .openS 0, .recv [112, 13, 10], .recv [33, 33, 13, 10]]).2.contains (.bad .recursion) = true := by
   decide +kernel
 
 -- non-vacuity of C13_total: the same inputs on the repaired model, with what is sent instead
 example : untag (run Cfg.fixed {} [.openS 2, .recv [33, 33, 13, 10]]).2 =
-    [.slot 0, .slot 8, .line "ret=1", .slot 0, .exec [33, 33], .tx .out Msg.idxRange, .slot 8, .line "ret=1"] := by
+    [.slot 0, .slot 8, .line "ret=1", .slot 0, .entered, .exec [33, 33], .tx .out Msg.idxRange, .slot 8, .line "ret=1"] := by
   decide +kernel
 
 
@@ -438,6 +394,7 @@ theorem C13_sessions_independent (cfg : Cfg) (w : World) (op : Op) (r : World ×
     (hs : step cfg w op = some r) (ht : touches w op j = false) : r.1.slot j = w.slot j := by
   cases op with
   | sel k => simp only [step] at hs; split at hs <;> first | (cases hs; rfl) | simp at hs
+  | depth n => simp only [step] at hs; split at hs <;> first | (cases hs; rfl) | simp at hs
   | openS o =>
     simp only [touches, beq_eq_false_iff_ne] at ht
     simp only [step] at hs; split at hs
@@ -483,7 +440,7 @@ theorem C13_sessions_independent (cfg : Cfg) (w : World) (op : Op) (r : World ×
         split at hs
         · cases hs; rfl
         · cases hs; exact deliver_other cfg w 6 j _ (Ne.symm ht)
-      · cases hs; exact slot_setSlot_ne w _ j _ (Ne.symm ht)
+      · cases hs; exact finishSlot_other w k j _ _ _ (Ne.symm ht)
     · simp at hs
   | xdisc k =>
     simp only [touches, beq_eq_false_iff_ne] at ht
@@ -492,44 +449,47 @@ theorem C13_sessions_independent (cfg : Cfg) (w : World) (op : Op) (r : World ×
     · simp at hs
   | sstart =>
     simp only [touches, Bool.or_eq_false_iff, beq_eq_false_iff_ne] at ht
+    have hp : (w.exits.contains (j, (w.slot j).gen) || (w.slot j).ending) = false := by rw [ht.1.2, ht.2]; rfl
     simp only [step] at hs; split at hs
     · cases hs
-      have h7 := slot_setSlot_ne w 7 j { w.slot 7 with fstate := 1, gen := (w.slot 7).gen + 1, sess := some { opts := 1 } } (Ne.symm ht.1)
-      rw [doPass_other cfg _ j (by rw [h7]; exact ht.2), h7]
+      have h7 := slot_setSlot_ne w 7 j { w.slot 7 with fstate := 1, gen := (w.slot 7).gen + 1, sess := some { opts := 1 } } (Ne.symm ht.1.1)
+      rw [doPass_other cfg _ j (by rw [h7]; exact hp), h7]
     · simp at hs
   | srecv bs =>
     simp only [touches, Bool.or_eq_false_iff, beq_eq_false_iff_ne] at ht
+    have hp : (w.exits.contains (j, (w.slot j).gen) || (w.slot j).ending) = false := by rw [ht.1.2, ht.2]; rfl
     simp only [step] at hs; split at hs
     · cases hs
       simp only
       by_cases hb : bs = []
-      · simp only [hb, if_true]; exact doPass_other cfg w j ht.2
+      · simp only [hb, if_true]; exact doPass_other cfg w j hp
       · simp only [hb, if_false]
         by_cases h1 : (w.slot 7).fstate = 1
         · simp only [h1, if_true]
-          have hd := deliver_other cfg w 7 j bs (Ne.symm ht.1)
+          have hd := deliver_other cfg w 7 j bs (Ne.symm ht.1.1)
           obtain ⟨n, hn⟩ := deliver_exits cfg w 7 bs
           rw [doPass_other cfg _ j ?_, hd]
           rw [hd, hn]
           have hc : (w.exits ++ List.replicate n (7, (w.slot 7).gen)).contains (j, (w.slot j).gen) = false := by
             rw [Bool.eq_false_iff]; intro hh
             rcases List.mem_append.mp (List.contains_iff_mem.mp hh) with h2 | h2
-            · have := List.contains_iff_mem.mpr h2; rw [ht.2] at this; cases this
-            · have := (List.mem_replicate.mp h2).2; simp at this; exact ht.1 this.1
-          exact hc
+            · have := List.contains_iff_mem.mpr h2; rw [ht.1.2] at this; cases this
+            · have := (List.mem_replicate.mp h2).2; simp at this; exact ht.1.1 this.1
+          rw [hc, ht.2]; rfl
         · simp only [h1, if_false]
-          have h7 := slot_setSlot_ne w 7 j { w.slot 7 with fstate := 1, gen := (w.slot 7).gen + 1, sess := some { opts := 1 } } (Ne.symm ht.1)
-          rw [doPass_other cfg _ j (by rw [h7]; exact ht.2), h7]
+          have h7 := slot_setSlot_ne w 7 j { w.slot 7 with fstate := 1, gen := (w.slot 7).gen + 1, sess := some { opts := 1 } } (Ne.symm ht.1.1)
+          rw [doPass_other cfg _ j (by rw [h7]; exact hp), h7]
     · simp at hs
   | sstop =>
     simp only [touches, Bool.or_eq_false_iff, beq_eq_false_iff_ne] at ht
+    have hp : (w.exits.contains (j, (w.slot j).gen) || (w.slot j).ending) = false := by rw [ht.1.2, ht.2]; rfl
     simp only [step] at hs; split at hs
     · cases hs
-      have h7 := slot_setSlot_ne w 7 j { w.slot 7 with fstate := 3, sess := none } (Ne.symm ht.1)
-      rw [doPass_other cfg _ j (by rw [h7]; exact ht.2), h7]
+      have h7 := slot_setSlot_ne w 7 j { w.slot 7 with fstate := 3, sess := none } (Ne.symm ht.1.1)
+      rw [doPass_other cfg _ j (by rw [h7]; exact hp), h7]
     · simp at hs
   | mkdir => simp only [step] at hs; split at hs <;> first | (cases hs; rfl) | simp at hs
-  | mkfunc => simp only [step] at hs; split at hs <;> first | (cases hs; rfl) | simp at hs
+  | mkfunc sc => simp only [step] at hs; split at hs <;> first | (cases hs; rfl) | simp at hs
   | mount p c name =>
     simp only [step] at hs; repeat' split at hs
     all_goals first | (cases hs; rfl) | simp at hs
